@@ -160,7 +160,8 @@ def types_json(prog):
         imports["trig" if m.group(1) == "trigger" else "templ"].append(m.group(2))
     impls = [{"templ": im["templ"], "caps": im["caps"] or [], "sing": im["sing"], "methods": list(im["methods"])} for im in prog.get("impls", ())]
     return json.dumps({"id": prog["id"], "fns": fns, "globals": globs, "dups": [n for n, _ in prog.get("dupfns", ())],
-                       "needmain": True, "sings": sings, "imports": imports, "impls": impls})
+                       "needmain": True, "sings": sings, "imports": imports, "impls": impls,
+                       "types": [{"n": td["n"], "t": parse_type(td["t"])} for td in prog.get("types", ())]})
 
 
 # ---- AST walking -----------------------------------------------------------------------------------
@@ -497,6 +498,27 @@ def mutants(prog, rnd, per_op):
         for how in ("cb-not-event", "cb-param-type", "cb-arity", "cb-ret", "cb-unknown", "trigger-unknown", "trigger-not-imported", "arg-type", "arg-arity",
                     "cb-param-name", "self"):
             emit(trig_mut(how), "trigger-" + how)
+    # type definitions: the name stands for another type (every use of it changes meaning), or the definition goes away
+    tdefs = [j for j, n in enumerate(nodes([prog["fns"][f]["body"] for f in fnames])) if n.get("k") == "typedef"]
+    for j in tdefs[:per_op]:
+        for other in ("str", "int", "[bool]", "{ zz: int }"):
+            def m(q, j=j, other=other):
+                n = nodes([q["fns"][f]["body"] for f in fnames])[j]
+                if n["t"] == other:
+                    return False
+                n["t"] = other
+            emit(m, "typedef-means-" + re.sub(r"[^a-z]+", "", other))
+        def m(q, j=j):
+            n = nodes([q["fns"][f]["body"] for f in fnames])[j]
+            n["n"] = n["n"] + "Gone"
+        emit(m, "typedef-renamed")
+    for j, td in enumerate(prog.get("types", ())):
+        for other in ("str", "[bool]"):
+            def m(q, j=j, other=other):
+                if q["types"][j]["t"] == other:
+                    return False
+                q["types"][j]["t"] = other
+            emit(m, "module-type-means-" + re.sub(r"[^a-z]+", "", other))
     # singleton types: a field (or the whole type) without a default value
     sing_idx = [j for j, g in enumerate(prog["globals"]) if g.get("decl")]
     for j in sing_idx[:per_op]:
@@ -640,6 +662,24 @@ def typing_programs():
          "g": Fn(["x"], Block([Loop(Block([Expr(If(Bin("<", V("x"), I(0)), Block([Expr(Call("throw", S("neg")))]))),
                                             Expr(If(Bin("==", V("x"), I(0)), Block([Expr(Block([Ret(S("zero"))]))]))), Expr(Asg(V("x"), I(1), "-="))]))]), "str"),
          "main": Fn([], Block([Print(Call("f", I(3)), Call("g", I(2)))]))})
+    # type definitions: at module level and inside functions / blocks, the innermost definition of a name is meant
+    def typed(name, fns, types=(), **kw):
+        progs.append(Program("ty_" + name, fns, feats={"family": "typing", "form": name}, types=types, **kw))
+    typed("typedef_shadowed",
+          {"twice": Fn(["p"], Block([], Bin("*", V("p"), I(2))), "Id", ["Id"]),
+           "main": Fn([], Block([Let("a", I(42), "Id"), Expr(Block([TypeDef("Id", "str"), Let("b", S("x"), "Id"), Print(V("b"), MCall(V("b"), "len")),
+                                                                  Expr(Block([TypeDef("Id", "[int]"), Let("c", List(I(1)), "Id"), Print(MCall(V("c"), "len"))])),
+                                                                  Let("d", S("y"), "Id"), Print(V("d"))])),
+                                 Let("e", Call("twice", V("a")), "Id"), Print(V("a"), Bin("+", V("e"), I(1)))]))},
+          types=[("Id", "int")])
+    typed("typedef_local_only",
+          {"main": Fn([], Block([TypeDef("Row", "{ k: int, l: [str] }"), Let("r", Obj(k=I(1), l=List(S("a"))), "Row"), Print(Mem(V("r"), "k"), Mem(V("r"), "l")),
+                                 TypeDef("Rows", "[{ k: int, l: [str] }]"), Let("rs", List(V("r")), "Rows"), Print(MCall(V("rs"), "len")),
+                                 Let("f", FnLit(["q"], Block([TypeDef("Row", "bool"), Let("t", B(True), "Row")], Bin("+", V("q"), I(1))), "int", ["int"])), Print(CallV(V("f"), I(1)))]))})
+    typed("typedef_in_signature",
+          {"pick": Fn(["rows", "i"], Block([], Idx(V("rows"), V("i"))), "Cell", ["Grid", "int"]),
+           "main": Fn([], Block([Let("g", List(I(5), I(6)), "Grid"), Print(Call("pick", V("g"), I(1)))]))},
+          types=[("Cell", "int"), ("Grid", "[int]")])
     # a match without default arm is left when nothing matches, even if every arm diverges: what follows is reached
     add("match_all_arms_diverge_no_default",
         {"check": Fn(["x"], Block([Expr(Match(V("x"), [([I(1)], Block([Ret(I(1))])), ([I(2), I(3)], Block([Expr(Call("throw", S("two")))]))])), Print(S("after"))], I(5)), "int", ["int"]),
